@@ -58,7 +58,7 @@ func init() {
 			if tier == "thorough" {
 				return 15 * time.Minute
 			}
-			return 60 * time.Second
+			return 180 * time.Second // the 12 000-object bucket is one work item of about a minute
 		},
 	})
 }
@@ -140,6 +140,24 @@ func runC11(c *fw.Ctx) {
 	}
 	c11RunFixed(c, &item, big, bigLists)
 	c.Bound("large_bucket_objects", len(big))
+	// a bucket of 12 000 objects, listed with prefixes that select a handful of names behind (or in the middle of) thousands
+	// of others: whatever bounds the work of one page must not lose names or end the page chain early
+	var huge []string
+	for i := 0; i < 12000; i++ {
+		huge = append(huge, fmt.Sprintf("m%05d", i))
+	}
+	huge = append(huge, "a-first", "z/1", "z/2", "zz")
+	var hugeLists []GOp
+	for _, p := range []string{"z", "z/", "zz", "m119", "m1199", "a", "n"} {
+		for _, d := range []string{"", "/"} {
+			for _, mx := range []string{"", "3"} {
+				hugeLists = append(hugeLists, GOp{Kind: "List", Bucket: "b", Prefix: p, Delim: d, MaxRes: mx})
+			}
+		}
+	}
+	hugeLists = append(hugeLists, GOp{Kind: "List", Bucket: "b", MaxRes: "5000"}, GOp{Kind: "List", Bucket: "b", Delim: "/", MaxRes: "11999"}, GOp{Kind: "List", Bucket: "b", Delim: "0", MaxRes: "7"})
+	c11RunFixed(c, &item, huge, hugeLists)
+	c.Bound("huge_bucket_objects", len(huge))
 	// names at the length limit (1024 bytes; path components stay below 255 bytes so that the file store can hold them):
 	// collapsed prefixes of 1021-1024 bytes, whose resume cursor is longer than any object name
 	deep := strings.Repeat("p/", 505) // 1010 bytes
